@@ -172,6 +172,11 @@ func (xaManager *XAResourceManager) BranchCommit(ctx context.Context, branchReso
 		return branch.BranchStatusPhasetwoRollbackFailedUnretryable, err
 	}
 
+	if connectionProxyXA.phaseOneRunning() {
+		// the application is still working on this branch on this very connection: try again later
+		return branch.BranchStatusPhasetwoCommitFailedRetryable, fmt.Errorf("xa branch %s is still in phase one", xaID.String())
+	}
+
 	if err := connectionProxyXA.XaCommit(ctx, xaID); err != nil {
 		log.Errorf("commit xa, resourceId: %s, err %v", branchResource.ResourceId, err)
 		setBranchStatus(xaID.String(), branch.BranchStatusPhasetwoCommitted)
@@ -187,6 +192,12 @@ func (xaManager *XAResourceManager) BranchRollback(ctx context.Context, branchRe
 	connectionProxyXA, err := xaManager.finishBranch(ctx, xaID, branchResource)
 	if err != nil {
 		return branch.BranchStatusPhasetwoRollbackFailedUnretryable, err
+	}
+
+	if connectionProxyXA.phaseOneRunning() {
+		// the coordinator gave the global transaction up (timeout) while the application is still working on this
+		// branch on this very connection: try again when the statement is through
+		return branch.BranchStatusPhasetwoRollbackFailedRetryable, fmt.Errorf("xa branch %s is still in phase one", xaID.String())
 	}
 
 	if err = connectionProxyXA.XaRollbackByBranchId(ctx, xaID); err != nil {
